@@ -234,7 +234,7 @@ def _limit_memory() -> None:
     resource.setrlimit(resource.RLIMIT_AS, (cap, cap))
 
 
-def run_coq_file(path: str, timeout: int = 600) -> Tuple[str, List[Tuple[int, str]], str]:
+def run_coq_file(path: str, timeout: int = 1800) -> Tuple[str, List[Tuple[int, str]], str]:
     """Compile one generated file; returns (status, mismatches, raw_output)."""
     cmd = ["coqc", "-Q", os.path.join(COQ, "theories"), "KV", "-Q", GEN, "KVGen", path]
     try:
